@@ -28,6 +28,7 @@ RULE = (
 REQUIRED = ["readonly.observables", "readonly.arguments", "readonly.module_defaults", "readonly.solve_repeatable",
             "battlife.restored_on_return", "battlife.restored_on_dfunc_raise", "battlife.restored_on_pfunc_raise",
             "battlife.restored_on_solver_raise"]
+CASE_TIMEOUT = 600  # seconds; generous (one battlife case = up to 2 x steps complete depletion runs)
 SIZES = {"quick": 50, "thorough": 420}
 ASSUMPTIONS = ["diagram calls render through the local Graphviz 'dot' binary into a temporary directory (format raw)"]
 
@@ -174,8 +175,19 @@ def run_battlife(ctx, case, ns, rng, spec, sysobj):
                 obj._params["vo"], obj._params["rs"] = b["args"]["vo"], abs(b["args"].get("rs", 0.0))
 
         # normal run
+        import time as _time
+
         pf, df = battery_model(1.0, v0, 0.05, steps, sag=v0 * 0.01)
+        t_run = _time.time()
         st, r = H.call(sysobj.batt_life, ref, cutoff=v0 * 0.5, pfunc=pf, dfunc=df)
+        t_run = _time.time() - t_run
+        # every failpoint k = 1..steps is enumerated unless one run of this system is slow (a slowly converging
+        # system): then first, last and a sample in between, so that a case stays far below the watchdog limit
+        budget = max(3, min(steps, int(25.0 / max(t_run, 1e-3))))
+        ks = list(range(1, steps + 1))
+        if budget < steps:
+            ks = sorted(set([1, steps] + rng.sample(ks, budget - 2)))
+            ctx.count("battlife", "failpoints sampled (slow system)")
         if st != "ok":
             ctx.count("battlife", "normal run raised " + type(r).__name__)
         check("battlife.restored_on_return", {"outcome": "returned" if st == "ok" else H.exc_sig(r)})
@@ -186,7 +198,7 @@ def run_battlife(ctx, case, ns, rng, spec, sysobj):
             check("battlife.restored_on_pfunc_raise", {"exception": type(exc).__name__, "propagated": st})
             injections += 1
         # the deplete callback raises at the k-th call, for every k
-        for k in range(1, steps + 1):
+        for k in ks:
             exc = rng.choice([ModelError("deplete failed"), ValueError("bad"), ZeroDivisionError(), Stop()])
             pf, df = battery_model(1.0, v0, 0.05, steps, sag=v0 * 0.01, fail_at=k, exc=exc)
             st, r = call_base(sysobj.batt_life, ref, cutoff=v0 * 0.5, pfunc=pf, dfunc=df)
@@ -194,7 +206,7 @@ def run_battlife(ctx, case, ns, rng, spec, sysobj):
             check("battlife.restored_on_dfunc_raise", {"k": k, "exception": type(exc).__name__, "propagated": st})
             injections += 1
         # the solver raises at the k-th solver call, for every k
-        for k in range(1, steps + 1):
+        for k in ks:
             exc = rng.choice([RuntimeError("Steady-state not achieved"), ValueError("Unstable system"), Stop()])
             pf, df = battery_model(1.0, v0, 0.05, steps, sag=v0 * 0.01)
             _fail.update(at=k, count=0, exc=exc)
